@@ -3,7 +3,9 @@ mod exec;
 mod vgen;
 mod hist;
 mod model;
+mod props2;
 mod props_db;
+mod props_search;
 mod query;
 mod val;
 
@@ -55,10 +57,20 @@ fn main() {
     }
     let mut ctx = Ctx::new(&id, tier, seed);
     match id.as_str() {
+        "C05" => props2::c05(&mut ctx),
+        "C06" => props2::c06(&mut ctx),
+        "C12" => props2::c12(&mut ctx),
+        "C13" => props2::c13(&mut ctx),
+        "C19" => props2::c19(&mut ctx),
         "C08" => props_db::c08(&mut ctx),
         "C09" => props_db::c09(&mut ctx),
         "C10" => props_db::c10(&mut ctx),
         "C11" => props_db::c11(&mut ctx),
+        "C14" => props_search::c14(&mut ctx),
+        "C15" => props_search::c15(&mut ctx),
+        "C16" => props_search::c16(&mut ctx),
+        "C17" => props_search::c17(&mut ctx),
+        "C18" => props_search::c18(&mut ctx),
         _ => {
             eprintln!("unknown property {id}");
             std::process::exit(2);
@@ -70,6 +82,16 @@ fn main() {
 fn replay_one(id: &str, path: &str) -> i32 {
     match id {
         "C08" | "C09" | "C10" | "C11" => props_db::replay(path),
+        "C05" => props2::c05_replay(path),
+        "C06" => props2::c06_replay(path),
+        "C12" => props2::c12_replay(path),
+        "C13" => props2::c13_replay(path),
+        "C19" => props2::c19_replay(path),
+        "C14" => props_search::c14_replay(path),
+        "C15" => props_search::c15_replay(path),
+        "C16" => props_search::c16_replay(path),
+        "C17" => props_search::c17_replay(path),
+        "C18" => props_search::c18_replay(path),
         _ => {
             eprintln!("no replay for {id}");
             2
